@@ -5,8 +5,6 @@ attributes and keywords are left alone. Used to probe how much the rules depend 
 import ast, builtins, sys, warnings
 from pathlib import Path
 
-src, dst = Path(sys.argv[1]), Path(sys.argv[2])
-dst.mkdir(parents=True, exist_ok=True)
 
 
 def params_of(fn):
@@ -56,23 +54,29 @@ def process_function(fn, module_names):
     Ren(mapping).visit(fn)
 
 
-for p in sorted(src.glob("*.py")):
-    with warnings.catch_warnings():
-        warnings.simplefilter("ignore")
-        tree = ast.parse(p.read_text())
-    module_names = {n.id for n in ast.walk(tree) if isinstance(n, ast.Name) and isinstance(n.ctx, ast.Store) and any(n in ast.walk(s) for s in tree.body if not isinstance(s, (ast.FunctionDef, ast.ClassDef)))}
-    for s in tree.body:
-        if isinstance(s, (ast.ClassDef, ast.FunctionDef)):
-            module_names.add(s.name)
-        if isinstance(s, (ast.Import, ast.ImportFrom)):
-            for a in s.names:
-                module_names.add((a.asname or a.name).split(".")[0])
-    for s in tree.body:
-        if isinstance(s, ast.FunctionDef):
-            process_function(s, module_names)
-        elif isinstance(s, ast.ClassDef):
-            for m in s.body:
-                if isinstance(m, ast.FunctionDef):
-                    process_function(m, module_names)
-    (dst / p.name).write_text(ast.unparse(tree) + "\n")
-print("renamed into", dst)
+def rename_package(src, dst):
+    src, dst = Path(src), Path(dst)
+    dst.mkdir(parents=True, exist_ok=True)
+    for p in sorted(src.glob("*.py")):
+        with warnings.catch_warnings():
+            warnings.simplefilter("ignore")
+            tree = ast.parse(p.read_text())
+        module_names = {n.id for n in ast.walk(tree) if isinstance(n, ast.Name) and isinstance(n.ctx, ast.Store) and any(n in ast.walk(s) for s in tree.body if not isinstance(s, (ast.FunctionDef, ast.ClassDef)))}
+        for s in tree.body:
+            if isinstance(s, (ast.ClassDef, ast.FunctionDef)):
+                module_names.add(s.name)
+            if isinstance(s, (ast.Import, ast.ImportFrom)):
+                for a in s.names:
+                    module_names.add((a.asname or a.name).split(".")[0])
+        for s in tree.body:
+            if isinstance(s, ast.FunctionDef):
+                process_function(s, module_names)
+            elif isinstance(s, ast.ClassDef):
+                for m in s.body:
+                    if isinstance(m, ast.FunctionDef):
+                        process_function(m, module_names)
+        (dst / p.name).write_text(ast.unparse(tree) + "\n")
+
+
+if __name__ == "__main__":
+    rename_package(sys.argv[1], sys.argv[2])
